@@ -46,10 +46,16 @@ class Ctx:
             c = gr._PROCESS_ATOM_CACHE
             dict.clear(c)
             dict.update(c, self._atom_cache0)
-        for mod in (bc, gr, mg):
+        # every functools cache anywhere in the package (also ones a later version may add)
+        for mname, mod in list(sys.modules.items()):
+            if mod is None or not (mname == "selfies" or mname.startswith("selfies.")):
+                continue
             for nm, fn in list(vars(mod).items()):
-                if callable(fn) and hasattr(fn, "cache_clear") and getattr(fn, "__module__", None) == mod.__name__:
-                    fn.cache_clear()
+                if callable(fn) and hasattr(fn, "cache_clear") and hasattr(fn, "cache_info"):
+                    try:
+                        fn.cache_clear()
+                    except Exception:  # noqa
+                        pass
         prop = getattr(mg.Atom, "bonding_capacity", None)
         if isinstance(prop, property) and hasattr(prop.fget, "cache_clear"):
             prop.fget.cache_clear()
